@@ -180,42 +180,44 @@ structure MergeOut where
   clockCreate : Nat
 deriving Repr
 
-def witnessAll (ce cc : Nat) (packs : List Pack) : Nat × Nat :=
-  (max ce (maxOf (packs.map (·.edit))), max cc (maxOf (packs.map (·.create))))
+def mkMergeCommit (nh l rh mp au : String) (e : Nat) : Commit :=
+  { hash := nh, parents := [l, rh], pack := .ok { id := mp, author := au, ops := [], create := 0, edit := e } }
 
-/-- `dag.merge` for one remote ref.  `newHash`, `mergePackId` and `author` are what the
-environment gives to the merge commit if one is written (scenario 5). -/
-def merge (s : Store) (localHead : Option String) (remoteHead : String) (clockEdit clockCreate : Nat)
-    (newHash mergePackId author : String) : MergeOut :=
-  match read s remoteHead with
-  | .error _ => { status := .invalid, localHead := localHead, clockEdit := clockEdit, clockCreate := clockCreate }
+/-- Scenario 5: both sides have new commits.  Read the local entity (witnessing its clocks),
+write an empty pack at `Increment(edit clock)` with parents (local, remote), move the ref, and
+hand back the entity read at the new head. -/
+def mergeDiverged (s : Store) (l rh : String) (ce cc : Nat) (nh mp au : String) : MergeOut :=
+  match read s l with
+  | .error _ => { status := .error, localHead := some l, clockEdit := ce, clockCreate := cc }
+  | .ok le =>
+    let e := max ce (maxOf (le.packs.map (·.edit))) + 1
+    let cc2 := max cc (maxOf (le.packs.map (·.create)))
+    match read (s ++ [mkMergeCommit nh l rh mp au e]) nh with
+    | .error _ => { status := .error, localHead := some nh, mergeCommit := some ([l, rh], e),
+                    clockEdit := e, clockCreate := cc2 }
+    | .ok me => { status := .updated, localHead := some nh, mergeCommit := some ([l, rh], e),
+                  entityOps := me.ops, clockEdit := e, clockCreate := cc2 }
+
+/-- Scenarios 2–5: the entity exists locally at head `l`; `re` is the remote entity. -/
+def mergeExisting (s : Store) (re : Entity) (l rh : String) (ce cc : Nat) (nh mp au : String) : MergeOut :=
+  if l == rh then { status := .nothing, localHead := some l, clockEdit := ce, clockCreate := cc }
+  else if (reach s l).contains rh then { status := .nothing, localHead := some l, clockEdit := ce, clockCreate := cc }
+  else if (reach s rh).contains l then
+    { status := .updated, localHead := some rh, entityOps := re.ops, clockEdit := ce, clockCreate := cc }
+  else mergeDiverged s l rh ce cc nh mp au
+
+/-- `dag.merge` for one remote ref.  `nh`, `mp` and `au` are what the environment gives to the
+merge commit if one is written (its hash, its pack id, the merge author). -/
+def merge (s : Store) (localHead : Option String) (rh : String) (ce cc : Nat) (nh mp au : String) : MergeOut :=
+  match read s rh with
+  | .error _ => { status := .invalid, localHead := localHead, clockEdit := ce, clockCreate := cc }
   | .ok re =>
-    let (ce, cc) := witnessAll clockEdit clockCreate re.packs
-    if !entityValid re.ops then
-      { status := .invalid, localHead := localHead, clockEdit := ce, clockCreate := cc }
-    else
-    match localHead with
-    | none => { status := .new, localHead := some remoteHead, entityOps := re.ops, clockEdit := ce, clockCreate := cc }
-    | some lh =>
-      if lh == remoteHead then { status := .nothing, localHead := some lh, clockEdit := ce, clockCreate := cc }
-      else if (reach s lh).contains remoteHead then
-        { status := .nothing, localHead := some lh, clockEdit := ce, clockCreate := cc }
-      else if (reach s remoteHead).contains lh then
-        { status := .updated, localHead := some remoteHead, entityOps := re.ops, clockEdit := ce, clockCreate := cc }
-      else
-        match read s lh with
-        | .error _ => { status := .error, localHead := some lh, clockEdit := ce, clockCreate := cc }
-        | .ok le =>
-          let (ce2, cc2) := witnessAll ce cc le.packs
-          -- the merge commit: empty pack at Increment(edit clock), parents (local, remote)
-          let mc : Commit := { hash := newHash, parents := [lh, remoteHead],
-                               pack := .ok { id := mergePackId, author := author, ops := [], create := 0, edit := ce2 + 1 } }
-          -- the entity handed back is the merged one, read back from the updated ref
-          match read (s ++ [mc]) newHash with
-          | .error _ => { status := .error, localHead := some newHash, mergeCommit := some ([lh, remoteHead], ce2 + 1),
-                          clockEdit := ce2 + 1, clockCreate := cc2 }
-          | .ok me =>
-            { status := .updated, localHead := some newHash, mergeCommit := some ([lh, remoteHead], ce2 + 1),
-              entityOps := me.ops, clockEdit := ce2 + 1, clockCreate := cc2 }
+    -- reading the remote entity witnessed all its clocks
+    let ce1 := max ce (maxOf (re.packs.map (·.edit)))
+    let cc1 := max cc (maxOf (re.packs.map (·.create)))
+    if !entityValid re.ops then { status := .invalid, localHead := localHead, clockEdit := ce1, clockCreate := cc1 }
+    else match localHead with
+      | none => { status := .new, localHead := some rh, entityOps := re.ops, clockEdit := ce1, clockCreate := cc1 }
+      | some l => mergeExisting s re l rh ce1 cc1 nh mp au
 
 end GitBugModel.Dag
